@@ -783,6 +783,46 @@ func c14Sorted(p *core.Prog, r *core.Run, rs, rt *ssa.Function, rule string) {
 		s := sorts[0]
 		arg := s.X.Args[0]
 		onHTTPS := arg.Op == "field" && arg.Name == "HTTPS"
+		// ... or a local list that becomes result.HTTPS afterwards, as it is
+		sortedVal := s.Instr.Common().Args[0]
+		for {
+			if mi, ok := sortedVal.(*ssa.MakeInterface); ok {
+				sortedVal = mi.X
+				continue
+			}
+			break
+		}
+		var isSorted func(v ssa.Value, depth int) bool
+		isSorted = func(v ssa.Value, depth int) bool {
+			if v == sortedVal || isNilConst(v) {
+				return true
+			}
+			// the list lives in a variable (the less function captures it): a later
+			// read of that variable, not written since, is the sorted list
+			if l1, ok := v.(*ssa.UnOp); ok && l1.Op == token.MUL {
+				if l2, ok := sortedVal.(*ssa.UnOp); ok && l2.Op == token.MUL && l1.X == l2.X {
+					if cell, ok := l1.X.(*ssa.Alloc); ok {
+						stores, calls := p.CellDefs(cell)
+						clean := len(calls) == 0
+						for _, st := range stores {
+							if core.MayFollow(s.Instr, st) {
+								clean = false
+							}
+						}
+						return clean
+					}
+				}
+			}
+			if ph, ok := v.(*ssa.Phi); ok && depth < 4 {
+				for _, e := range ph.Edges {
+					if !isSorted(e, depth+1) {
+						return false
+					}
+				}
+				return true
+			}
+			return false
+		}
 		less := false
 		if cl := s.X.Args[1]; cl.Op == "closure" && cl.Fn != nil {
 			for _, ret := range core.Returns(cl.Fn) {
@@ -794,12 +834,16 @@ func c14Sorted(p *core.Prog, r *core.Run, rs, rt *ssa.Function, rule string) {
 			}
 		}
 		// no append to result.HTTPS may follow the sort; target resolution follows it
-		later := false
+		later, handedOver := false, false
 		for _, b := range rs.Blocks {
 			for _, in := range b.Instrs {
 				if st, ok := in.(*ssa.Store); ok {
 					x := p.X(st.Addr)
 					if x.Op == "field" && x.Name == "HTTPS" && !isNilConst(st.Val) && core.MayFollow(s.Instr, st) {
+						if !onHTTPS && isSorted(st.Val, 0) {
+							handedOver = true
+							continue
+						}
 						later = true
 					}
 				}
@@ -811,6 +855,7 @@ func c14Sorted(p *core.Prog, r *core.Run, rs, rt *ssa.Function, rule string) {
 				before = false
 			}
 		}
+		onHTTPS = onHTTPS || handedOver
 		okSort = onHTTPS && less && !later && before
 		r.Check(rule, "sort:by-priority", okSort, p.InstrPos(s.Instr), "service-mode records are sorted ascending by Priority (%v on result.HTTPS: %v), nothing is appended afterwards (%v) and target resolution comes after it (%v)", less, onHTTPS, !later, before)
 	} else {
